@@ -31,6 +31,33 @@ fn enumerate() {
                 let b = ran.locate(TextSize::new(off as u32));
                 s.push_str(&format!("{}:{}:{}:{}:{} ", off, a.row.get(), a.column.get(), b.row.get(), b.column.get()));
             }
+            // the linear locator started fresh at each single offset, and for each pair of consecutive boundaries skipping
+            // one in between (it then enters a line in its middle): must give what the ascending walk gave
+            // The position between the CR and the LF of a CRLF is never the start or end of a token, node or error; a
+            // linear locator that enters a line exactly there disagrees with the index (noted in DESIGN.md): left out here.
+            let sb = src.as_bytes();
+            let bounds: Vec<usize> = src
+                .char_indices()
+                .map(|(o, _)| o)
+                .chain(std::iter::once(src.len()))
+                .filter(|o| *o >= first)
+                .filter(|&o| !(o > 0 && o < sb.len() && sb[o - 1] == b'\r' && sb[o] == b'\n'))
+                .collect();
+            for (k, &off) in bounds.iter().enumerate() {
+                let b = ran.locate(TextSize::new(off as u32));
+                let a = LinearLocator::new(&src).locate(TextSize::new(off as u32));
+                if (a.row, a.column) != (b.row, b.column) {
+                    s.push_str(&format!("{}:{}:{}:{}:{} ", off, a.row.get(), a.column.get(), b.row.get(), b.column.get()));
+                }
+                if k >= 2 {
+                    let mut lin2 = LinearLocator::new(&src);
+                    lin2.locate(TextSize::new(bounds[k - 2] as u32));
+                    let a2 = lin2.locate(TextSize::new(off as u32));
+                    if (a2.row, a2.column) != (b.row, b.column) {
+                        s.push_str(&format!("{}:{}:{}:{}:{} ", off, a2.row.get(), a2.column.get(), b.row.get(), b.column.get()));
+                    }
+                }
+            }
             s
         })
         .unwrap_or("PANIC".to_string());
